@@ -46,7 +46,7 @@ def main():
         return R.finish()
     cdir, harness, model = st
     lines = []; meta = []
-    n = 30000 if thorough else 4000
+    n = 150000 if thorough else 4000
     for fam in ('uri', 'iri'):
         g = Gen(random.Random(rnd.random()), fam)
         for i in range(n // 2):
